@@ -17,10 +17,8 @@ Proof.
   split; intros H.
   - pose proof (Qle_ceiling x). rewrite Zle_Qle in H. lra.
   - pose proof (Qceiling_lt x) as L.
-    assert (inject_Z (Qceiling x) - 1 < inject_Z z) by lra.
-    assert (E : inject_Z (Qceiling x) - 1 == inject_Z (Qceiling x - 1)).
-    { unfold Zminus. rewrite inject_Z_plus. reflexivity. }
-    rewrite E in H0. rewrite <- Zlt_Qlt in H0. lia.
+    assert (H0 : inject_Z (Qceiling x - 1) < inject_Z z) by lra.
+    rewrite <- Zlt_Qlt in H0. lia.
 Qed.
 Lemma lt_ceil_iff x z : (z < Qceiling x)%Z <-> inject_Z z < x.
 Proof.
@@ -82,9 +80,8 @@ Proof.
   intros Hok Hp Hlo Hhi. destruct k as [|n]; cbn [range_state sem].
   - (* numeric: inclusive range against the open region *)
     rewrite Hp. apply eq_true_iff_eq. rewrite !andb_true_iff, !Qleb_le, !Qltb_lt.
-    split; intros [H1 H2]; split; try lra.
-    + destruct (Qeq_dec v lo); [contradiction|lra].
-    + destruct (Qeq_dec v hi); [contradiction|lra].
+    split; intros [H1 H2]; split; try lra;
+      destruct (Qeq_dec v lo); destruct (Qeq_dec v hi); try contradiction; lra.
   - destruct (get a e) as [i| |] eqn:G; cbn in Hok; try contradiction.
     cbn in Hp. injection Hp as <-.
     apply eq_true_iff_eq. rewrite zmem_in, andb_true_iff, !Qltb_lt.
@@ -105,7 +102,7 @@ Proof.
 Qed.
 
 (* a range region looks at its own axis only *)
-Theorem range_dispatch isx lo hi g xk yk e v :
+Theorem range_dispatch (isx : bool) lo hi g xk yk e v :
   let a := if isx then AX else AY in
   coord_ok (if isx then xk else yk) (get a e) -> plot (get a e) = Some v -> ~ v == lo -> ~ v == hi ->
   sem (roi_to_state (R2 (Range isx lo hi) g) xk yk) e = range_contains isx lo hi (v, v).
@@ -122,7 +119,7 @@ Proof.
   cbn [map filter existsb]. destruct (Z.eqb i k) eqn:E.
   - apply Z.eqb_eq in E. subst k. cbn [orb andb]. destruct (P (i, g i)) eqn:EP.
     + cbn [assoc]. rewrite Z.eqb_refl. reflexivity.
-    + rewrite IH, EP, andb_false_r. reflexivity.
+    + rewrite IH, ?EP, andb_false_r. reflexivity.
   - cbn [orb]. destruct (P (k, g k)).
     + cbn [assoc]. rewrite E. exact IH.
     + exact IH.
@@ -162,7 +159,7 @@ Theorem nan_not_selected r g xk yk e : (forall isx lo hi, r <> Range isx lo hi) 
 Proof.
   intros NR Hn. destruct e as [ex ey]. cbn [fst snd] in Hn.
   assert (Hroi : sem (SRoi r) (ex, ey) = false).
-  { cbn [sem fst snd]. destruct Hn as [-> | ->]; cbn [plot]; [reflexivity|destruct (plot ex); reflexivity]. }
+  { destruct Hn as [-> | ->]; cbn [sem fst snd plot]; [reflexivity|]. destruct (plot ex); reflexivity. }
   assert (Hand : forall x0 x1 y0 y1, sem (SAnd (range_state AX xk x0 x1) (range_state AY yk y0 y1)) (ex, ey) = false).
   { intros. cbn [sem]. destruct Hn as [-> | ->].
     - destruct xk; cbn [range_state sem get fst plot]; reflexivity.
@@ -170,11 +167,15 @@ Proof.
   assert (H2d : forall sel, sem (SCat2D sel) (ex, ey) = false).
   { intros. cbn [sem]. destruct Hn as [-> | ->]; [reflexivity|destruct ex; reflexivity]. }
   assert (Hm : forall a sel, sem (SMulti a sel) (ex, ey) = false).
-  { intros. cbn [sem]. destruct a; cbn [get fst snd]; destruct Hn as [-> | ->]; try reflexivity; destruct ex; try reflexivity; destruct ey; reflexivity. }
-  destruct r as [x0 x1 y0 y1 b c s| | | |isx lo hi|]; cbn [roi_to_state];
-    try (destruct (is_cat xk || is_cat yk); [destruct xk, yk; auto|auto]).
-  - destruct (is_cat xk || is_cat yk); [|auto]. destruct b; [apply Hand| |]; destruct xk, yk; auto.
+  { intros a sel. destruct Hn as [-> | ->]; destruct a; cbn [sem get fst snd]; try reflexivity;
+      try (destruct ex; reflexivity); try (destruct ey; reflexivity). }
+  destruct r as [x0 x1 y0 y1 b c s| | | |isx lo hi|]; cbn [roi_to_state].
+  - destruct (is_cat xk || is_cat yk); [|apply Hroi]. destruct b; [apply Hand| |]; destruct xk, yk; auto.
+  - destruct (is_cat xk || is_cat yk); [|apply Hroi]. destruct xk, yk; auto.
+  - destruct (is_cat xk || is_cat yk); [|apply Hroi]. destruct xk, yk; auto.
+  - destruct (is_cat xk || is_cat yk); [|apply Hroi]. destruct xk, yk; auto.
   - exfalso. apply (NR isx lo hi). reflexivity.
+  - destruct (is_cat xk || is_cat yk); [|apply Hroi]. destruct xk, yk; auto.
 Qed.
 
 (* ------------------------------------------------------------------ dispatch *)
